@@ -1153,14 +1153,20 @@ pub fn prnt_chunk(pairs: &[(i32, i32)]) -> Vec<u8> {
 }
 
 pub fn sstr_chunk(strings: &[Vec<u8>]) -> Vec<u8> {
+    sstr_chunk_with(strings, false)
+}
+
+pub fn sstr_chunk_with(strings: &[Vec<u8>], zero_hashes: bool) -> Vec<u8> {
     let mut o = Out::new();
     o.u32(0);
     o.u32(strings.len() as u32);
     for s in strings {
         // "The MD5 Hash isn't used by Roblox Studio when loading the file."
         let mut h = [0u8; 16];
-        let x = crate::engine::fxhash(s).to_le_bytes();
-        h[..8].copy_from_slice(&x);
+        if !zero_hashes {
+            let x = crate::engine::fxhash(s).to_le_bytes();
+            h[..8].copy_from_slice(&x);
+        }
         o.bytes(&h);
         o.string(s);
     }
